@@ -146,16 +146,22 @@ Theorem C10_lt_date_brackets : forall d f t, is_op f = false ->
 Proof. exact lt_date_brackets. Qed.
 Print Assumptions C10_lt_date_brackets.
 
-(* ---- agreement with the reference semantics on the core domain ---- *)
+(* ---- agreement with the reference semantics ---- *)
 
 (* Spec/RefMatch.v: `RefMatch.holds` is the reference truth value (DESIGN.md
-   8.1), `core d f` the core domain (8.2: D1 no array directly in an array,
-   D2 non-null scalar operands and leaf operators only under fan-out, D3 no
-   numeric field names inside array elements, D4 well-formed arguments).
-   Every operator of the domain is covered: $and $or $nor, implicit and,
+   8.1).  The property's domain is D1-D4 as written in 8.2 (`domainb`: D1 no
+   array directly in an array, D2 non-null scalar operands and the leaf
+   operators only under fan-out, D3 no numeric field names inside array
+   elements, D4 well-formed arguments).  Inside it lungo has four recorded
+   defect classes (known_findings.json, property C10); `core` is D1-D4 minus
+   these classes and `domain_class` tells where a pair lies.  On `core` the
+   agreement is proved, for every operator: $and $or $nor, implicit and,
    literal equality, $eq $gt $gte $lt $lte $ne, $in $nin, $exists, $type,
    $size, $mod, $bitsAllSet/AllClear/AnySet/AnyClear, $not, $all, $elemMatch.
-   $jsonSchema has no reference semantics here and is outside `core`. *)
+   $jsonSchema has no reference semantics here and is outside the domain.
+   On the finding classes the real matcher is compared with the reference on
+   every run (oracle `reference`): disagreements there are KNOWN-FINDINGs, any
+   disagreement inside `core` is a violation. *)
 Theorem C10_match_ref : forall d f,
   core d f -> Match d f = Ok (RefMatch.holds d f).
 Proof. exact match_ref. Qed.
@@ -165,6 +171,15 @@ Theorem C10_match_ref_partial : forall d f,
   core_covered d f -> Match d f = Ok (RefMatch.holds d f).
 Proof. exact match_ref_partial. Qed.
 Print Assumptions C10_match_ref_partial.
+
+(* `core` is exactly the first class of the classification; DOutside is outside D1-D4 *)
+Theorem C10_domain_class_core : forall d f, domain_class d f = DCore <-> core d f.
+Proof. exact domain_class_core. Qed.
+Print Assumptions C10_domain_class_core.
+
+Theorem C10_domain_class_outside : forall d f, domain_class d f = DOutside -> domainb d f = false.
+Proof. exact domain_class_outside. Qed.
+Print Assumptions C10_domain_class_outside.
 
 (* the element wrapper used by the reference for $elemMatch is neutral *)
 Theorem C10_elem_root_lookup : forall e p, rlookup (elem_root e) (elem_path ++ p)%list = rlookup e p.
@@ -180,7 +195,8 @@ Theorem C10_match_ref_example :
            [("a", VDoc [("$elemMatch", VDoc [("b", VDoc [("$gt", VInt32 5)])])])] = Ok true.
 Proof. vm_compute. repeat split; reflexivity. Qed.
 
-(* where the domain ends: lungo and the reference differ (lungo's answer last) *)
+(* -- outside D1-D4: why the domain ends where it does (lungo's answer last;
+      the reference answers the opposite; `differs` includes domainb = false) -- *)
 Theorem C10_null_fanout_refuted :
   differs [("a", VArr [VDoc [("b", VInt32 1)]; VDoc [("c", VInt32 2)]])] [("a.b", VNull)] false.
 Proof. exact null_fanout_refuted. Qed.
@@ -202,37 +218,65 @@ Theorem C10_array_operand_fanout_refuted :
 Proof. exact array_operand_fanout_refuted. Qed.
 Print Assumptions C10_array_operand_fanout_refuted.
 
-Theorem C10_type_null_missing_refuted :
-  differs [("b", VInt32 1)] [("a", VDoc [("$type", VString "null")])] true.
-Proof. exact type_null_missing_refuted. Qed.
-Print Assumptions C10_type_null_missing_refuted.
+(* -- INSIDE D1-D4: genuine lungo defects.  Each theorem is the Coq witness of
+      the finding of known_findings.json (property C10) whose signature it
+      carries: the faithful model answers like lungo, the reference answers the
+      opposite, and the pair lies in that class of the property's domain. -- *)
 
+(* finding C10:type-array-under-fanout *)
 Theorem C10_type_array_fanout_refuted :
-  differs [("a", VArr [VDoc [("b", VArr [VInt32 1])]])] [("a.b", VDoc [("$type", VString "array")])] false.
+  finding [("a", VArr [VDoc [("b", VArr [VInt32 1])]])] [("a.b", VDoc [("$type", VString "array")])]
+          false "C10:type-array-under-fanout".
 Proof. exact type_array_fanout_refuted. Qed.
 Print Assumptions C10_type_array_fanout_refuted.
 
+(* finding C10:exists-under-fanout-empty-array *)
 Theorem C10_exists_fanout_empty_refuted :
-  differs [("a", VArr [VDoc [("b", VArr [])]])] [("a.b", VDoc [("$exists", VBool true)])] false.
+  finding [("a", VArr [VDoc [("b", VArr [])]])] [("a.b", VDoc [("$exists", VBool true)])]
+          false "C10:exists-under-fanout-empty-array".
 Proof. exact exists_fanout_empty_refuted. Qed.
 Print Assumptions C10_exists_fanout_empty_refuted.
 
+(* finding C10:size-under-fanout (an array is missed ...) *)
 Theorem C10_size_fanout_refuted :
-  differs [("a", VArr [VDoc [("b", VArr [VDoc [("c", VArr [VInt32 1; VInt32 2])]])]])]
-          [("a.b.c", VDoc [("$size", VInt32 2)])] false.
+  finding [("a", VArr [VDoc [("b", VArr [VDoc [("c", VArr [VInt32 1; VInt32 2])]])]])]
+          [("a.b.c", VDoc [("$size", VInt32 2)])] false "C10:size-under-fanout".
 Proof. exact size_fanout_refuted. Qed.
 Print Assumptions C10_size_fanout_refuted.
 
+(* finding C10:size-under-fanout (... and a collected empty list is taken for an array) *)
 Theorem C10_size_fanout_phantom_refuted :
-  differs [("a", VArr [VDoc [("b", VArr [])]])] [("a.b.c", VDoc [("$size", VInt32 0)])] true.
+  finding [("a", VArr [VDoc [("b", VArr [])]])] [("a.b.c", VDoc [("$size", VInt32 0)])]
+          true "C10:size-under-fanout".
 Proof. exact size_fanout_phantom_refuted. Qed.
 Print Assumptions C10_size_fanout_phantom_refuted.
 
-Theorem C10_all_mixed_refuted :
-  differs [("a", VArr [VInt32 1; VInt32 2])]
-          [("a", VDoc [("$all", VArr [VInt32 1; VArr [VInt32 1; VInt32 2]])])] false.
-Proof. exact all_mixed_refuted. Qed.
-Print Assumptions C10_all_mixed_refuted.
+(* finding C10:null-with-index-into-document-array *)
+Theorem C10_index_null_refuted :
+  finding [("a", VArr [VDoc [("b", VInt32 2)]])] [("a.0.b", VDoc [("$ne", VNull)])]
+          true "C10:null-with-index-into-document-array".
+Proof. exact index_null_refuted. Qed.
+Print Assumptions C10_index_null_refuted.
+
+(* -- repaired in lungo (known_findings.json, status fixed:
+      C10:type-null-on-missing-field, C10:all-mixed-operands): the inputs that
+      used to differ now lie in `core`, where C10_match_ref applies -- *)
+Theorem C10_type_null_missing_repaired :
+  core [("b", VInt32 1)] [("a", VDoc [("$type", VString "null")])] /\
+  Match [("b", VInt32 1)] [("a", VDoc [("$type", VString "null")])] = Ok false /\
+  Match [("a", VNull)] [("a", VDoc [("$type", VString "null")])] = Ok true.
+Proof. exact type_null_missing_repaired. Qed.
+Print Assumptions C10_type_null_missing_repaired.
+
+Theorem C10_all_mixed_repaired :
+  core [("a", VArr [VInt32 1; VInt32 2])]
+       [("a", VDoc [("$all", VArr [VInt32 1; VArr [VInt32 1; VInt32 2]])])] /\
+  Match [("a", VArr [VInt32 1; VInt32 2])]
+        [("a", VDoc [("$all", VArr [VInt32 1; VArr [VInt32 1; VInt32 2]])])] = Ok true /\
+  Match [("a", VArr [VInt32 1; VInt32 2])]
+        [("a", VDoc [("$all", VArr [VInt32 1; VInt32 3])])] = Ok false.
+Proof. exact all_mixed_repaired. Qed.
+Print Assumptions C10_all_mixed_repaired.
 
 (* ---- non-vacuity: the hypotheses are met and both truth values occur ---- *)
 
